@@ -222,6 +222,7 @@ int lp_value_add_approx(const lp_value_t* v1, const lp_value_t* v2, lp_value_t* 
           lp_value_assign_raw(ub, LP_VALUE_DYADIC_RATIONAL, &add_dy_interval.b);
         }
         is_point = 0;
+        lp_dyadic_interval_destruct(&add_dy_interval);
       }
       break;
     case LP_VALUE_NONE:
